@@ -18,3 +18,5 @@ LEVEL_TEXT = EXPLANATION
 TECHNIQUE = 'no-raise and variant obligations generated from the real ASTs (z3) + bounded sweep for the functions still under assumed contracts'
 TIMEOUT_MS = {'quick': 20000, 'thorough': 120000}
 MUSTFAIL_PER_FN = {'quick': 1, 'thorough': 4}
+
+FUNCTIONS = FUNCTIONS + [M + '__init__', N + 'assert_valid_input']
